@@ -25,8 +25,7 @@ FULL = (None,) + OK_KINDS + FAILING_KINDS
 REDUCED = (None, "OK", "raise", "noattr", "nomod", "BAD")
 
 
-def factory_name(kind, ident):
-    """The ``__type__`` value of the mapping number ``ident`` for a kind of factory"""
+def _factory_name(kind, ident):
     return {
         "cls": "%s.RecClass%d" % (FACTORY_MODULE, ident),          # recording class
         "fn": "%s.rec_function_%d" % (FACTORY_MODULE, ident),      # recording function
@@ -35,8 +34,17 @@ def factory_name(kind, ident):
         "raise": "%s.raising_%d" % (FACTORY_MODULE, ident),        # called, raises
         "noattr": "%s.missing_%d" % (FACTORY_MODULE, ident),       # no such attribute
         "nomod": "c19_no_such_module_%d.thing" % ident,            # no such module
-        "nonstr": 7,                                               # not a name at all
+        "nonstr": None,                                            # not a name at all (empty YAML value)
     }[kind]
+
+
+FACTORY_NAMES = {(kind, ident): _factory_name(kind, ident)
+                 for kind in OK_KINDS + FAILING_KINDS for ident in range(8)}
+
+
+def factory_name(kind, ident):
+    """The ``__type__`` value of the mapping number ``ident`` for a kind of factory"""
+    return FACTORY_NAMES[kind, ident]
 
 
 KIND_OF_NAME = {
